@@ -9,8 +9,8 @@
 using namespace c13;
 
 struct Op { int c, glue; };   // glue=1: same segment as the previous command (no loop pass in between)
-static const char *CMD[] = {"p a", "p b c", "history", "!!", "!0", "!1", "!19", "!20", "!21", "!-1", "!-20", "!-21",
-                            "!2147483647", "!-2147483648", "!99999999999", "!-99999999999", "!x", "exit"};
+static const char *CMD[] = {"p a", "p b c", "history", "exit", "!!", "!0", "!1", "!19", "!20", "!21", "!-1", "!-20", "!-21",
+                            "!2147483647", "!-2147483648", "!99999999999", "!-99999999999", "!x"};
 enum { NCMD = 18 };
 
 static Args split_sp(const std::string &l) { Args a; size_t p = 0; while (p < l.size()) { size_t q = l.find(' ', p); if (q == std::string::npos) q = l.size(); if (q > p) a.push_back(l.substr(p, q - p)); p = q + 1; } return a; }
